@@ -62,6 +62,9 @@ class Folder(object):
             except ZeroDivisionError:
                 return same
             return T.const(w, _enc(r, w))
+        if n == 'fsub' and w in (32, 64) and len(ops) == 2:
+            # x - y == x + (-y) bit for bit (IEEE-754): one canonical form, so that n - 2t and n + (-2t) compare equal
+            return T.raw_op('fadd', w, ops[0], T.fneg(ops[1]))
         if n == 'sel':
             return T.sel(*ops)
         if n.startswith('f') and n[1:] in _FCMP and w == 1:
